@@ -119,6 +119,7 @@ func vNewConn() *Conn {
 	}
 	c.enc.Reset()
 	c.dec.Reset()
+	c.serverS.Reset() // as after a handshake in which the server's SETTINGS frame was empty
 	c.enc.DisableCompression = true
 	c.current.SetMaxWindowSize(1 << 20)
 	return c
@@ -156,8 +157,14 @@ func VerifH_C14_client() {
 	vAssume(dlen >= 0 && dlen <= length)
 	end := vBool()
 	waiting := vBool()
+	// the response's header block has arrived (DATA before it is a stream
+	// error: the request fails, only the connection credit is due then)
+	headers := vBool()
 	res := &fasthttp.Response{}
 	ctx := &Ctx{Response: res, Err: make(chan error, 1)}
+	if headers {
+		ctx.hdrBlocks, ctx.hdrStatus = 1, 200
+	}
 	if waiting {
 		ctx.conn.Store(c)
 		ctx.streamID = 3
@@ -175,10 +182,19 @@ func VerifH_C14_client() {
 	peerConn := int64(cur) - int64(length) + connInc
 	vAssert(peerConn == int64(c.currentWindow), "C14.client.conn-ledger-in-step")
 	vAssert(c.currentWindow > 0 && c.currentWindow <= c.maxWindow, "C14.client.conn-window-stays-open")
-	if waiting && !end {
+	if waiting && !end && headers {
 		vAssert(strmInc == int64(length), "C14.client.stream-credit-returned")
 	}
+	if waiting && !headers {
+		failed := false
+		select {
+		case err := <-ctx.Err:
+			failed = err != nil
+		default:
+		}
+		vAssert(failed, "C14.client.data-before-headers-fails-the-request")
+	}
 	vCover("C14.client.refill", connInc > 0)
-	vCover("C14.client.padding-only", waiting && !end && dlen == 0 && length > 0)
+	vCover("C14.client.padding-only", waiting && headers && !end && dlen == 0 && length > 0)
 	vCover("C14.client.nobody-waiting", !waiting && length > 0)
 }
